@@ -23,7 +23,7 @@ from ..core import Ctx, Infra, enc, subprocess_env, VERIF
 USES_TABLES = True
 
 THEOREMS = ["Builder.sim", "Builder.documented_eq_bound_partial", "Builder.kind_eq", "Builder.kind_eq_iff",
-            "Builder.exception_eq_partial", "Builder.exception_eq_of_tables", "Builder.exception_eq_qualified_counterexample", "Builder.exception_table_sound",
+            "Builder.exception_eq", "Builder.exception_eq_of_tables", "Builder.exception_eq_qualified_counterexample_old", "Builder.exception_table_sound",
             "Builder.exception_table_complete", "Builder.exception_tables_agree", "Builder.docstring_eq",
             "Builder.value_eq", "Builder.infer_type_sound", "Builder.infer_elements_sound", "Builder.infer_none_iff",
             "Builder.documented_eq_bound_setter_counterexample", "Builder.documented_eq_bound_annotation_counterexample",
@@ -71,9 +71,9 @@ PARTIAL = {
         "@x.setter/@x.deleter/@overload, bare annotations, decorators other than bare classmethod/staticmethod/property in a class (at most one per def) or identity "
         "decorators not named *property, definitions in else/finally parts, a class attribute assigned a NON-literal that shadows an inherited method/class, "
         "a `__name__` guard that pydoctor enters although it is not taken on import (or the reverse), `del`, `name.__doc__ = text` unless name is a plain function or class of the "
-        "namespace (any text, since 6e624d0), an external base written `builtins.X`. (The exception-table clause of inSubset is vacuous for the generated tables: "
+        "namespace (any text, since 6e624d0). (The exception-table clause of inSubset is vacuous for the generated tables: "
         "Builder.basesOk_generated.) Each excluded construct has a counterexample theorem; setter, bare annotation and non-literal inherited shadowing "
-        "(and, judged by probes, the property protocol through a base class / getter, re-typing by unpacking, async generators, qualified builtin exception bases) are recorded open findings. Docstring (Builder.docstring_eq) and exception kind (Builder.exception_eq) carry no exclusion of their own since fcaa577 / 769cae3; "
+        "(and, judged by probes, the property protocol through a base class / getter, async generators) are recorded open findings. Docstring (Builder.docstring_eq) and exception kind (Builder.exception_eq) carry no exclusion of their own since fcaa577 / 769cae3; "
         "the former witnesses are kept as *_counterexample_old over labelled pre-fix definitions.",
     "Builder.kind_eq": "decorator lists accepted by Subset.decosOk (kind_eq_iff characterises agreement for all lists of evaluable decorators)",
 }
@@ -888,7 +888,7 @@ def build_pydoctor(files: Dict[str, str], modules: List[Tuple[str, bool]], find_
         def logged(cls, name):
             chain = [[(n, isinstance(o, model.Attribute)) for n, o in b.contents.items()] for b in cls.mro()]
             r = orig(cls, name)
-            find_log.append((name, chain, r))
+            find_log.append((name, chain, r, cls, list(cls.mro())))
             return r
         astbuilder._maybeAttribute = logged
     try:
@@ -949,35 +949,36 @@ def contents_token(cc) -> str:
     return ",".join("%s=%s" % (enc(n), "A" if a else "N") for n, a in cc) or "-"
 
 
-def bases_chain(cls) -> List[list]:
-    """the bases of `cls` as `Class.find` walks them while the class body is visited (initial base objects,
-    depth first, as `allbases`), each as [(name, is Attribute)]"""
-    from pydoctor import model
-    order: list = []
+def visit_time_bases(cls) -> list:
+    """the classes `Class.find` walks after `cls` itself while the class body is visited: `cls.mro()` before
+    post-processing = pydoctor's own C3 (`pydoctor.mro.mro`) over the base objects resolved at that time, with the fallback
+    `allbases` (depth first) when they cannot be linearised (since 7c3f474; the order itself is C05's layer)"""
+    from pydoctor import mro as pdmro
 
-    def allbases(c):
+    def allbases(c, out):
         for b in c._initialbaseobjects:
             if b is not None:
-                order.append(b)
-                allbases(b)
-    allbases(cls)
-    return [[(n, isinstance(o, model.Attribute)) for n, o in b.contents.items()] for b in order]
+                out.append(b)
+                allbases(b, out)
+        return out
+    try:
+        return list(pdmro.mro(cls, lambda c: [b for b in c._initialbaseobjects if b is not None]))[1:]
+    except (ValueError, RecursionError):
+        return allbases(cls, [])
+
+
+def bases_chain(cls) -> List[list]:
+    """the bases of `cls` in that order, each as [(name, is Attribute)]"""
+    from pydoctor import model
+    return [[(n, isinstance(o, model.Attribute)) for n, o in b.contents.items()] for b in visit_time_bases(cls)]
 
 
 def inherited_nonattr(cls) -> List[str]:
     """names for which Class.find, restricted to the bases, answers with a non-Attribute — what
-    `_maybeAttribute` saw when the class body was visited (initial base objects, bases complete)"""
+    `_maybeAttribute` saw when the class body was visited (Python re-statement, used as a cross-check of the model's op)"""
     from pydoctor import model
-    order: list = []
-
-    def allbases(c):
-        for b in c._initialbaseobjects:
-            if b is not None:
-                order.append(b)
-                allbases(b)
-    allbases(cls)
     first: Dict[str, Any] = {}
-    for b in order:
+    for b in visit_time_bases(cls):
         for n, o in b.contents.items():
             first.setdefault(n, o)
     return sorted(n for n, o in first.items() if not isinstance(o, model.Attribute))
@@ -1641,7 +1642,16 @@ def run_batch(ctx: Ctx, batch, pyres) -> None:
                     ctx.fail("docstring:module-differs", {"files": files, "scope": q},
                              "module %s: docstring %r, interpreter %r" % (q, mo.docstring, py["module_docs"][q]))
         envt = env_token(g.env)
-        for name, chain, r in find_log[:60]:
+        seen_cls: Set[int] = set()
+        for _n, _c, _r, kls, walked in find_log:
+            # the order the harness reconstructs for the scope context must be the order the real `find` walked
+            if id(kls) not in seen_cls:
+                seen_cls.add(id(kls))
+                ctx.count("visit-order:classes-checked")
+                if [id(b) for b in walked[1:]] != [id(b) for b in visit_time_bases(kls)]:
+                    ctx.disagree("visit-order", {"scope": kls.fullName(), "files": files},
+                                 [b.fullName() for b in visit_time_bases(kls)], [b.fullName() for b in walked[1:]])
+        for name, chain, r, _k, _w in find_log[:60]:
             find_reqs.append("builder find %s %s" % (enc(name), " ".join(contents_token(cc) for cc in chain)))
             find_impl.append("True" if r else "False")
             find_pay.append({"name": name, "chain": chain, "files": files})
